@@ -88,8 +88,8 @@ def g_burgers(rng, D, v):
 
 def g_kdv(rng, D, v):
     return {"convection_scale": _u(rng, -6, -1), "diffusivity": _u(rng, 0.0, 0.05), "dispersivity": _u(rng, 0.2, 1.0) * 1e-2,
-            "hyper_diffusivity": _u(rng, 1e-5, 1e-4), "advect_over_diffuse": bool(v % 2), "diffuse_over_diffuse": bool(v // 2 % 2),
-            "single_channel": bool(v // 4 % 2), "conservative": bool(v // 8 % 2)}
+            "hyper_diffusivity": _u(rng, 1e-5, 1e-4), "advect_over_diffuse": bool(v // 4 % 2), "diffuse_over_diffuse": bool(v // 8 % 2),
+            "single_channel": bool(v % 2), "conservative": bool(v // 2 % 2 == 0)}      # low variant bits = channel/conservation form (every quick tier reaches all four)
 
 
 def g_ks(rng, D, v):
